@@ -2,7 +2,7 @@
 //! document replica with LSP 3.17 position arithmetic (UTF-16 columns; line ends `\n`, `\r\n`,
 //! `\r`; a column past the end of a line is the end of that line; a line past the last line is the
 //! end of the document). None of this shares code with the server.
-use super::scenario::{ClientOp, Edit};
+use super::scenario::{ClientOp, Edit, Step};
 use serde_json::{json, Value};
 use std::collections::BTreeMap;
 
@@ -87,9 +87,16 @@ fn edit_json(e: &Edit) -> Value {
     }
 }
 
-pub fn frame_of(op: &ClientOp) -> Vec<u8> {
-    let body = serde_json::to_string(&body_of(op)).expect("json");
-    let mut out = format!("Content-Length: {}\r\n\r\n", body.len()).into_bytes();
+pub const CONTENT_TYPE: &str = "Content-Type: application/vscode-jsonrpc; charset=utf-8\r\n";
+
+pub fn frame_of(st: &Step) -> Vec<u8> {
+    let body = serde_json::to_string(&body_of(&st.op)).expect("json");
+    let mut out = match st.hdr {
+        1 => format!("Content-Length: {}\r\n{CONTENT_TYPE}\r\n", body.len()),
+        2 => format!("{CONTENT_TYPE}Content-Length: {}\r\n\r\n", body.len()),
+        _ => format!("Content-Length: {}\r\n\r\n", body.len()),
+    }
+    .into_bytes();
     out.extend_from_slice(body.as_bytes());
     out
 }
